@@ -257,6 +257,9 @@ func sampleCall(rng *rand.Rand, mode Mode) Call {
 			if k == "cancel" || k == "writer-fail" {
 				c.Fault.Frac = 0
 			}
+		} else if rng.Intn(8) == 0 {
+			// benign link behaviour: the call's outcome must still equal its outcome when run alone
+			c.Fault = &Fault{Kind: []string{"replay", "replay", "dup"}[rng.Intn(3)]}
 		}
 	case ModeC01Clean:
 		switch rng.Intn(8) {
@@ -577,7 +580,7 @@ func oracleC19(alone, conc *CallRecord) []problem {
 		add("every call returns once faults stop (bounded liveness)", "the call never returned")
 		return out
 	}
-	if conc.Call.Fault != nil {
+	if conc.Call.Fault != nil && !benign(conc.Call.Fault.Kind) {
 		return nil // a faulted neighbour may fail in any way its fault allows
 	}
 	if alone == nil {
